@@ -192,6 +192,13 @@ theorem C07_graph_from_file (t : Str) :
     splitLines (universalNewlines t) = splitLines t ∧ graphFromFileContent t = graphFromMolfileText t :=
   ⟨splitLines_universalNewlines t, graphFromFileContent_eq t⟩
 
+/-- … and the suffix check in front of it: `.mol` is read, every other suffix is refused with `IOError` before the
+file is opened -/
+theorem C07_graph_from_file_suffix (suffix t : Str) :
+    (suffix = cs ".mol" → graphFromFile suffix t = graphFromMolfileText t) ∧
+    (suffix ≠ cs ".mol" → graphFromFile suffix t = .error .osError) :=
+  graphFromFile_spec suffix t
+
 /-- non-vacuity: the translation does change the text -/
 example : universalNewlines ['a', '\r', '\n', 'b', '\r', 'c', '\n'] = ['a', '\n', 'b', '\n', 'c', '\n'] :=
   universalNewlines_example
